@@ -385,6 +385,7 @@ class Module:
                 while lines[i] != "}":
                     s = lines[i]; i += 1
                     if not s.strip() or s.lstrip()[0] == ";": continue
+                    if re.match(r'\s+(cleanup|catch |filter )', s): continue      # landingpad clauses
                     m = re.match(r'^("(?:[^"\\]|\\.)*"|[-a-zA-Z$._0-9]+):', s)
                     if m and not s.startswith(" "):
                         lab = m.group(1)
@@ -397,6 +398,9 @@ class Module:
                         while "]" not in lines[i]:
                             s += " " + lines[i]; i += 1
                         s += " " + lines[i]; i += 1
+                    if re.match(r'\s*(%\S+ = )?invoke ', s):
+                        while "unwind label" not in s:
+                            s += " " + lines[i]; i += 1
                     cur[1].append(self.parse_instr(s))
                 # implicit entry label = number after last param
                 if f.blocks and f.blocks[0][0] is None:
@@ -553,7 +557,8 @@ class Module:
                 at = p.type(); p.skip_attrs(); args.append((at, p.value(at))); p.accept(",")
             dest = None
             if op == "invoke":
-                while p.peek()[1] != "to": p.next()
+                while p.peek()[1] != "to":
+                    if p.next()[0] == "eof": raise Unsupported("malformed invoke: " + s)
                 p.next(); p.expect("label"); n = unq(p.next()[1])[1:]; p.expect("unwind"); p.expect("label"); u = unq(p.next()[1])[1:]
                 dest = (n, u)
             return I(rt, (callee, args, dest))
